@@ -91,7 +91,35 @@ def snapshot(chart) -> str:
     return json.dumps(doc, sort_keys=True, default=repr)
 
 
-def alphabet(spec: dict, tier: str) -> t.List[tuple]:
+def hidden_snapshot() -> str:
+    """State outside the chart that could carry information from one run to the next: mutable module-level
+    containers and class-level containers of the engine packages, sizes of functools caches. It is part of the
+    search state (so that histories reaching a new hidden state are explored further) but a change of it is
+    NOT a violation by itself: a cache is only wrong if a later run behaves differently, which the
+    differential oracle decides."""
+    import sys
+    out = []
+    for mname, mod in sorted(sys.modules.items()):
+        if not (mname.startswith('ml_pipeline_engine') or mname.startswith('ml_pipeline_viewer')) or mod is None:
+            continue
+        for k, v in sorted(vars(mod).items()):
+            if k.startswith('__'):
+                continue
+            if isinstance(v, (dict, list, set)) and not k.isupper():
+                out.append((mname, k, type(v).__name__, len(v), json.dumps(canon(v), sort_keys=True, default=repr)[:2000]))
+            elif callable(v) and hasattr(v, 'cache_info'):
+                try:
+                    out.append((mname, k, 'cache', v.cache_info().currsize))
+                except Exception:  # noqa: BLE001
+                    pass
+            elif inspect.isclass(v) and getattr(v, '__module__', '') == mname:
+                for ck, cv in sorted(vars(v).items()):
+                    if isinstance(cv, (dict, list, set)) and not ck.startswith('__') and ck not in ('_abc_impl',):
+                        out.append((mname, f'{k}.{ck}', type(cv).__name__, len(cv)))
+    return json.dumps(out, default=repr)
+
+
+def alphabet(spec: dict, tier: str, full: bool = False) -> t.List[tuple]:
     """(name, plan, inputs, policy) entries: success, labels, iteration counts, one failure per node class, two inputs."""
     q = tier == 'quick'
     out = []
@@ -111,6 +139,8 @@ def alphabet(spec: dict, tier: str) -> t.List[tuple]:
             for kw, kind, arg in nd['params']:
                 if kind == 'oneof':
                     out.append((f'fallback-{arg[0]}', dict(bases[0], **{arg[0]: ['raise:E1']}), {'x': 1}, 'first'))
+    if full:
+        out += [(f'p{i}', pl, {'x': 1}, 'first') for i, pl in enumerate((EN.plans(spec) + corpus.extra_plans(spec))[:80])]
     seen = set()
     res = []
     for e in out:
@@ -133,10 +163,13 @@ def fresh_chart(spec: dict):
     return codegen.chart(spec)
 
 
+MAX_NEW_STATES_PER_DEPTH = 6
+
+
 def work(arg: tuple) -> dict:
     tier, fam, spec = arg
     depth = 2 if tier == 'quick' else 3
-    alpha = alphabet(spec, tier)
+    alpha = alphabet(spec, tier, full=(fam == 'corpus' and len(S.kinds_used(spec)) >= 2))
     out = dict(states=0, transitions=0, runs=0, viol=[], sample=None, alphabet=len(alpha))
     tags = sorted(S.static_tags(spec))
     # reference: every alphabet entry on a fresh chart
@@ -160,11 +193,13 @@ def work(arg: tuple) -> dict:
 
     # --- BFS over histories, deduplicated on the snapshot
     init = snapshot(build(()))
-    seen = {init}
+    seen = {(init, hidden_snapshot())}
     frontier: t.List[tuple] = [()]
     for d in range(depth):
         nxt = []
         for hist in frontier:
+            if len(out['viol']) >= 3:
+                break       # enough counterexamples for this program; do not spend the budget on a broken tree
             for e in alpha:
                 chart = build(hist)
                 before = snapshot(chart)
@@ -186,9 +221,14 @@ def work(arg: tuple) -> dict:
                 if after != before:
                     diff = _diff(before, after)
                     report('chart-state-changed', f'after {[h[0] for h in hist]}, run {e[0]} changed the chart: {diff}', list(hist) + [e])
-                if after not in seen:
-                    seen.add(after)
+                key = (after, hidden_snapshot())
+                if key not in seen:
+                    seen.add(key)
                     nxt.append(tuple(hist) + (e,))
+        if len(nxt) > MAX_NEW_STATES_PER_DEPTH:
+            # only reachable when runs keep producing new (hidden) states, i.e. never on a tree where the property holds
+            out['capped'] = out.get('capped', 0) + len(nxt) - MAX_NEW_STATES_PER_DEPTH
+            nxt = nxt[:MAX_NEW_STATES_PER_DEPTH]
         frontier = nxt
         if not frontier:
             break
@@ -197,6 +237,8 @@ def work(arg: tuple) -> dict:
     small = alpha[: (4 if tier == 'quick' else 6)]
     for L in range(2, depth + 1):
         for hist in itertools.product(small, repeat=L):
+            if len(out['viol']) >= 3:
+                break
             chart = build(hist[:-1])
             e = hist[-1]
             x = do_run(spec, chart, e)
@@ -227,7 +269,7 @@ def run(prop: str, tier: str, seed: int) -> dict:
         for sp in EN.family(f, tier):
             if len(sp['nodes']) <= (4 if q else 5) or f in ('oneof',) and len(sp['nodes']) <= 5:
                 items.append((tier, f, sp))
-    tot = dict(states=0, transitions=0, runs=0)
+    tot = dict(states=0, transitions=0, runs=0, capped=0)
     viol: t.List[dict] = []
     samples = []
     maxalpha = 0
@@ -235,14 +277,15 @@ def run(prop: str, tier: str, seed: int) -> dict:
         if isinstance(res, tuple) and res and res[0] == '__error__':
             return dict(coverage={}, violations=[], internal=[f'{res[1]}\n{res[2]}'])
         for k in tot:
-            tot[k] += res[k]
+            tot[k] += res.get(k, 0)
         viol += res['viol']
         maxalpha = max(maxalpha, res['alphabet'])
         if res['sample'] and len(samples) < 3 and len(res['sample']['spec']['nodes']) >= 4:
             samples.append(res['sample'])
     viol.sort(key=lambda v: (len(v['history']), len(json.dumps(v['case'], default=repr)), v['key']))
     cov = dict(programs=len(items), states=max(tot['states'], 1), transitions=max(tot['transitions'], 1), evaluations=tot['runs'],
-               traces_validated_against_impl=tot['runs'], depth=2 if q else 3, max_alphabet=maxalpha, exhaustive=True, samples=samples,
+               traces_validated_against_impl=tot['runs'], depth=2 if q else 3, max_alphabet=maxalpha, caps_hit=tot['capped'],
+               exhaustive=tot['capped'] == 0, samples=samples,
                rule='per program: BFS over run histories on one chart object, state = canonical deep snapshot of the chart (dedup), '
                     'alphabet = (input, plan, schedule policy) entries; every transition compared with a fresh chart (outcome class and '
                     'full trace digest), snapshot-before == snapshot-after, caller dict unchanged; plus an un-deduplicated differential '
